@@ -108,6 +108,15 @@ CORPUS = [
     [("rule", 0, ".y", None), ("ext", 1, ".y", ".y", False, "screen"), ("ext", 2, ".y#i", ".y", False, "print")],
     # X3: weave puts `.y` between `[t]:focus` and `b`
     [("ext", 2, "[t]:focus + b", "#i", False, None), ("ext", 1, ".y ~ b[t]", "a", False, None), ("rule", 0, "#i + a.x", None)],
+    # three and four hops, target rule last / first / in between
+    [("ext", 1, ".b", ".a", False, None), ("ext", 2, ".c", ".b", False, None), ("ext", 3, ".d", ".c", False, None), ("rule", 0, ".a", None)],
+    [("rule", 0, ".a", None), ("ext", 1, ".b", ".a", False, None), ("ext", 2, ".c", ".b", False, None), ("ext", 3, ".d", ".c", False, None)],
+    [("ext", 3, ".d", ".c", False, None), ("ext", 1, ".b", ".a", False, None), ("rule", 0, ".a", None), ("ext", 2, ".c", ".b", False, None)],
+    [("ext", 1, ".b", ".a", False, None), ("ext", 2, ".c", ".b", False, None), ("ext", 3, ".d", ".c", False, None),
+     ("ext", 4, ".e", ".d", False, None), ("rule", 0, ".a", None)],
+    # a member written twice in one list, two others between the copies (trim's rotate_slice)
+    [("rule", 0, ".c, .a, .b, .c, .t", None), ("ext", 1, ".e", ".t", False, None)],
+    [("rule", 0, ".c, .a, .b, .d, .c, .t", None), ("ext", 1, ".c", ".t", False, None)],
     # merge_final_combinators must keep the descendant parent when the sibling compound is not dropped
     [("rule", 0, ".a y", None), ("ext", 1, ".a.b ~ x", "y", False, None)],
     [("rule", 0, ".a y", None), ("ext", 1, ".a.b + x", "y", False, None)],
@@ -131,6 +140,40 @@ def gen_chain_sheet(rng):
     e2 = ("ext", 2, rng.choice([".q", ".q.y"]), ".m", False, None)
     other = ("rule", 3, rng.choice([".m", ".x .m", ":is(.m)", ":not(.m)"]), None)
     items = [rule, e1, e2, other]
+    rng.shuffle(items)
+    return items, meta_of(items)
+
+
+def gen_long_chain_sheet(rng):
+    """3- and 4-hop chains of single-class extenders (`.b{@extend .a} .c{@extend .b} .d{@extend .c}` …) in a random order of
+    rules and @extends; pseudo-free and clash-free, so they are judged strictly"""
+    hops = rng.choice([3, 3, 4])
+    names = [".a", ".b", ".c", ".d", ".e"][:hops + 1]
+    deco = rng.choice(["", "", ".x", ":hover"])
+    items = [("rule", 0, rng.choice([".a", ".a", "a.a", ".x .a", ".a > a", ".a, .x"]), None)]
+    for k in range(hops):
+        items.append(("ext", k + 1, names[k + 1] + (deco if rng.random() < 0.3 else ""), names[k], False, None))
+    if rng.random() < 0.4:
+        items.append(("rule", hops + 1, rng.choice([names[1], names[2] + " a", ".y"]), None))
+    rng.shuffle(items)
+    return items, meta_of(items)
+
+
+def gen_dup_sheet(rng):
+    """selector lists of 4-6 complexes in which one member is written twice at distance >= 3 (trim's duplicate-original path,
+    mod.rs:803 rotate_slice), sometimes with the extender itself among the members"""
+    pool = [".a", ".b", ".c", ".d", "a", ".x a", "a > .y", ".f"]
+    members = rng.sample(pool, rng.choice([3, 4, 5]))
+    dup = rng.choice(members[:2])
+    i = members.index(dup)
+    lst = list(members)
+    lst.insert(min(len(lst), i + rng.choice([3, 3, 4])), dup)
+    target = ".t"
+    lst.insert(rng.randrange(len(lst) + 1), rng.choice([".t", ".t.x", "a .t"]))
+    ext_sel = rng.choice([".e", ".e", dup, members[-1]])
+    items = [("rule", 0, ", ".join(lst), None), ("ext", 1, ext_sel, target, False, None)]
+    if rng.random() < 0.3:
+        items.append(("ext", 2, ".g", rng.choice([".a", ".b", target]), False, None))
     rng.shuffle(items)
     return items, meta_of(items)
 
@@ -313,6 +356,10 @@ def run(tier, seed):
     for k in range(60 if not big else 300):
         sheets.append(gen_sibling_sheet(rng))
         sheets.append(gen_floor_sheet(rng))
+    for k in range(90 if not big else 500):
+        sheets.append(gen_long_chain_sheet(rng))
+    for k in range(60 if not big else 300):
+        sheets.append(gen_dup_sheet(rng))
     texts = [sheet_text(it) for it, _ in sheets]
     impl = compile_sheets(pool, texts)
     lap("compiled")
